@@ -283,3 +283,49 @@ Definition apply_effect (now : N) (m : dmap) (e : effect) : dmap :=
 
 (* the detector processing one message at time `now` *)
 Definition detector_step (now : N) (m : dmap) (msg : s2d) : dmap := apply_effect now m (handle_s2d msg).
+
+(* ------------------------------------------------------------------ the session table over time *)
+(* SessionTracker::drop_stale_sessions: retain |_, v| v > now *)
+Definition sweep (now : N) (m : dmap) : dmap := filter (fun kv => now <? snd kv) m.
+
+(* try_update_session_timeout: only an existing key is touched, the later expiry is kept *)
+Fixpoint refresh (k : dkey) (e : N) (m : dmap) : dmap :=
+  match m with
+  | [] => []
+  | (k', v) :: r => if dkey_eqb k' k then (k', N.max v e) :: r else (k', v) :: refresh k e r
+  end.
+
+Definition timeout_phantoms : N := 300 * ns_per_s.   (* TIMEOUT_PHANTOMS_NS: extension while packets are seen *)
+Definition tracked (k : dkey) (m : dmap) : bool := is_some (lookup k m).   (* is_tracked_session *)
+
+(* what can happen to the table: a message from the station (pubsub_handle_s2d), a direct insert
+   (add_session / insert_session), a packet of a flow (update_session), a lookup, the periodic sweep.
+   Flows are described by the message whose session they belong to. *)
+Inductive devent := EMsg (m : s2d) | EAdd (m : s2d) | EPacket (m : s2d) | EQuery (m : s2d) | ESweep.
+
+Definition dstep (now : N) (st : dmap) (e : devent) : dmap :=
+  match e with
+  | EMsg m => detector_step now st m
+  | EAdd m => match session_of m with Ok s => add_or_update (tag s) (now + s_timeout s) st | _ => st end
+  | EPacket m => match session_of m with Ok s => refresh (tag s) (now + timeout_phantoms) st | _ => st end
+  | EQuery _ => st
+  | ESweep => sweep now st
+  end.
+
+(* a history: events with the detector's clock reading at each *)
+Fixpoint drun (st : dmap) (h : list (N * devent)) : dmap :=
+  match h with
+  | [] => st
+  | (t, e) :: r => drun (dstep t st e) r
+  end.
+
+(* ingest_from_pubsub: receive errors, unreadable payloads and undecodable payloads are skipped,
+   every decoded message goes to pubsub_handle_s2d *)
+Inductive pevent := PRecvErr | PPayloadErr | PDecodeErr | PMsg (m : s2d).
+Definition pstep (now : N) (st : dmap) (e : pevent) : dmap :=
+  match e with PMsg m => detector_step now st m | _ => st end.
+Fixpoint prun (st : dmap) (h : list (N * pevent)) : dmap :=
+  match h with
+  | [] => st
+  | (t, e) :: r => prun (pstep t st e) r
+  end.
